@@ -161,7 +161,7 @@ class C12(OptEngineBase):
     PROBES = [
         "early_stop", "stop_at_i1", "hit_max_iter_converged", "hit_max_iter_not_converged", "chi2_increase_seen", "nan_chi2",
         "chi2_exact_zero", "split_ge_3", "clock_backwards", "clock_frozen", "stdout_failed", "clone_after_abort", "clone_checked",
-        "table_parsed", "table_unparsed", "stop_rule_ambiguous", "stdout_none", "str_parsed", "singular_raised_as_error",
+        "table_parsed", "table_unparsed", "stop_rule_ambiguous", "stdout_none", "str_parsed", "singular_raised_as_error", "called_with_defaults",
     ]
 
     def generate(self, rng, tier, index):
@@ -198,6 +198,9 @@ class C12(OptEngineBase):
                 "clock": rng.choice(["steady", "steady", "frozen", "epoch0"]),
                 "clone_check": rng.random() < 0.5,
             })
+            if rng.random() < 0.08:
+                # the documented defaults: optimize() == optimize(tol=1e-4, max_iter=20, fix_first_pose=True, verbose=True)
+                ops[-1].update({"use_defaults": True, "tol": 1e-4, "max_iter": 20, "fix_first_pose": True, "verbose": True})
         case = {"config": config, "workload": workload, "meta": meta, "ops": ops, "faults": []}
         if rng.random() < 0.6:
             dry = self.execute(copy.deepcopy(case), dry=True)
@@ -262,7 +265,12 @@ class C12(OptEngineBase):
                 raised = None
                 result = None
                 try:
-                    result = A.optimize(verbose=op["verbose"], **kw)
+                    if op.get("use_defaults"):
+                        if not dry:
+                            res.probe("called_with_defaults")
+                        result = A.optimize()
+                    else:
+                        result = A.optimize(verbose=op["verbose"], **kw)
                 except Exception as e:  # noqa
                     raised = e
                 fired = w.plan.fired[fired_before:]
